@@ -65,6 +65,12 @@ MUTANTS = [
     ("gcd on swapped coords", "AegeanTools/wcs_helpers.py",
      "major = gcd(ra, dec, ra2, dec2)", "major = gcd(dec, ra, ra2, dec2)",
      "C16-R2"),
+    ("axes swapped in the returned ellipse", "AegeanTools/wcs_helpers.py",
+     "        return ra, dec, major, minor, pa",
+     "        return ra, dec, minor, major, pa", "C16-R5"),
+    ("second axis measured along the first", "AegeanTools/wcs_helpers.py",
+     "        x_off, y_off = self.sky2pix(translate(ra, dec, b, pa - 90))",
+     "        x_off, y_off = self.sky2pix(translate(ra, dec, a, pa - 90))", "C16-R5"),
 ]
 TWINS = [
     ("explicit conversion factor", "AegeanTools/wcs_helpers.py",
@@ -127,6 +133,16 @@ def run(ctx):
     # ---------------------------------------------------------------- R3
     from .c17 import formulae
     formulae(ctx, prog, {"R1": "C16-R3", "R2": "C16-R3", "R3": "C16-R3"})
+    # ---------------------------------------------------------------- R5
+    r5_deps(ctx, ci)
+    from .. import precision
+    precision.rule(
+        ctx, prog, "C16-R6",
+        [lambda sh: sh.startswith("wcs_helpers.WCSHelper.") and
+         not sh.endswith("from_header") and not sh.endswith("from_file")],
+        "precision: pixel <-> sky conversions work in double precision "
+        "(1e-6 pixel round trip)", "a dtype narrower than float64 is used",
+        floor=10)
     # ---------------------------------------------------------------- R4
     ctx.rule("C16-R4", "psf look-ups: every return of get_psf_sky2sky / "
              "get_psf_sky2pix / get_psf_pix2pix yields (a, b, pa)")
@@ -148,3 +164,57 @@ def run(ctx):
             ctx.check("C16-R4", fi, "return " + norm(s, 70), ok,
                       "the psf triple must be (major, minor, angle) in this "
                       "order", node=s)
+
+
+DEP_SPEC = {
+    # method: (shape params, {return position: (must depend on, must NOT
+    #                                          depend on)})
+    "sky2pix_ellipse": (("a", "b", "pa"), {
+        0: ((), ("a", "b", "pa")), 1: ((), ("a", "b", "pa")),
+        2: (("a",), ("b",)), 3: (("b",), ()), 4: (("pa",), ("b",))}),
+    "pix2sky_ellipse": (("sx", "sy", "theta"), {
+        0: ((), ("sx", "sy", "theta")), 1: ((), ("sx", "sy", "theta")),
+        2: (("sx",), ("sy",)), 3: (("sy",), ()), 4: (("theta",), ("sy",))}),
+    "sky2pix_vec": (("r", "pa"), {
+        0: ((), ("r", "pa")), 1: ((), ("r", "pa")),
+        2: (("r",), ()), 3: (("pa",), ())}),
+    "pix2sky_vec": (("r", "theta"), {
+        0: ((), ("r", "theta")), 1: ((), ("r", "theta")),
+        2: (("r",), ()), 3: (("theta",), ())}),
+}
+
+
+def r5_deps(ctx, ci):
+    from ..core import param_deps
+    ctx.rule("C16-R5", "which input each output of the vector / ellipse "
+             "transforms may depend on: the centre on neither axis nor "
+             "angle; the first axis out on the first axis in and NOT on the "
+             "second; the second axis out on the second axis in; the angle "
+             "out on the angle in and not on the second axis (flow-sensitive "
+             "dependency analysis of the returned tuple)")
+    n = 0
+    for m, (shape, spec) in DEP_SPEC.items():
+        fi = ci.methods.get(m)
+        if fi is None:
+            raise AnalysisError("C16-R5: WCSHelper.%s missing" % m)
+        rets = param_deps(fi.node)
+        if not rets:
+            raise AnalysisError("C16-R5: no return in %s" % m)
+        for rn, els in rets:
+            if len(els) != len(spec):
+                raise AnalysisError("C16-R5: %s returns %d values" %
+                                    (m, len(els)))
+            for k, (must, mustnot) in spec.items():
+                d = els[k] & set(shape)
+                n += 1
+                miss = [x for x in must if x not in d]
+                extra = [x for x in mustnot if x in d]
+                ctx.check("C16-R5", fi, "%s: output %d depends on %s" %
+                          (m, k, sorted(d)), not miss and not extra,
+                          "output %d of %s %s%s" % (
+                              k, m,
+                              ("does not depend on %s; " % miss) if miss
+                              else "",
+                              ("depends on %s, which it must not" % extra)
+                              if extra else ""), node=rn)
+    ctx.floor("C16-R5", n, 16, "outputs of the vector / ellipse transforms")
